@@ -45,6 +45,36 @@ fn program(rng: &mut Rng, idx: u64, allow_unbounded_recursion: bool) -> Option<(
             // deep recursion: ends with the Stack overflow diagnostic
             prog.body.stmts.push(Stmt::Raw("do zz_deep(n) start\nreturn zz_deep(n add 1) add 1\nend\nshout(zz_deep(0))".into()));
         }
+        5 => {
+            // over an analysis budget (about 4 100 function definitions trip the derived summary bound):
+            // the program still runs, with names resolved lexically
+            let mut raw = String::from("make zz_x get \"outer\"\ndo zz_show() start\nreturn zz_x\nend\ndo zz_caller() start\nmake zz_x get \"inner\"\nreturn zz_show()\nend\nshout(zz_caller())");
+            for k in 0..4200 {
+                raw.push_str(&format!("\ndo zz_f{k}() start\nend"));
+            }
+            prog.body.stmts.push(Stmt::Raw(raw));
+        }
+        6 | 7 => {
+            // a comment block of multi-byte characters that pushes the text past the 8 KiB read size of the
+            // CLI's stdin mode, so that characters straddle read boundaries
+            let ch = *rng.pick(&["é", "€", "😀", "ß"]);
+            let lines = rng.range(2, 6);
+            let mut raw = String::new();
+            for l in 0..lines {
+                if l > 0 {
+                    raw.push('\n');
+                }
+                raw.push('#');
+                for _ in 0..rng.range(0, 3) {
+                    raw.push('x');
+                }
+                for _ in 0..rng.range(1500, 4000) {
+                    raw.push_str(ch);
+                }
+            }
+            let n = prog.body.stmts.len();
+            prog.body.stmts.insert(rng.usize(n) + 1, Stmt::Raw(raw));
+        }
         4 => {
             // large allocations: force commit and decommit of the arenas
             prog.body.stmts.push(Stmt::Raw("make zz_big get \"xxxxxxxxxxxxxxxx\"\nmake zz_i get 0\njasi (zz_i small pass 14) start\nzz_big get zz_big add zz_big\nzz_i get zz_i add 1\nend\nshout(zz_big.len())".into()));
@@ -52,7 +82,7 @@ fn program(rng: &mut Rng, idx: u64, allow_unbounded_recursion: bool) -> Option<(
         _ => {}
     }
     let _ = interp::resolve(&mut prog);
-    let has_raw = kind <= 4;
+    let has_raw = kind <= 7;
     if !has_raw {
         let model = interp::run(&prog, 200_000);
         if !model.ending.comparable() {
